@@ -274,7 +274,7 @@ class C19(PropBase):
     REQUIRED_REACH = ("custom_pdu_on_unregistered_session", "custom_pdu_on_registered_session", "duplicate_registration",
                       "registration_after_traffic", "same_type_registered_on_two_sessions", "interleavings_compared",
                       "registration_semantics_checked", "unknown_result_code_on_two_sessions", "same_id_different_class_on_two_sessions",
-                      "send_failed_while_encoding", "shared_recv_buffer_with_residue", "envelope_name_on_other_kind", "session_restarted")
+                      "send_failed_while_encoding", "shared_recv_buffer_with_residue", "envelope_name_on_other_kind", "session_restarted", "invalid_utf8_in_filter_text")
 
     # ---------------------------------------------------------------- generation (no library code here)
 
@@ -374,8 +374,13 @@ class C19(PropBase):
             msg = policy.byz_request(gen, mid, kind)
             if rng.random() < 0.15:
                 msg["envelope_name"] = rng.choice([NOTICE_OID, "1.2.3.4.5"])
+            bad_text = False
+            if msg["t"] == "SearchRequest" and rng.random() < 0.12:
+                # text that is not valid UTF-8 (a truncated multi-byte sequence) in a filter's attribute description
+                msg["filter"] = {"t": rng.choice(["Present", "Equality"]), "attribute": {"hex": rng.choice(["636166c3", "e282", "80"])}, "value": "61"}
+                bad_text = True
             data = rfc4511.enc_msg(msg)
-            self._model_recv(g, data, custom=_uses_custom(msg))
+            self._model_recv(g, data, fatal=bad_text, custom=_uses_custom(msg))
             return self._recv_ops(g, rng, data)
         if rng.random() < 0.2:
             m, a, _ = policy.server_any_call(genc, model, p_unbind=0.02)
@@ -546,6 +551,8 @@ class C19(PropBase):
             for op in v:
                 if op["k"] == "restart":
                     st.hit("session_restarted")
+                if op["k"] == "recv" and ("0404636166c3" in op["hex"] or "8704636166c3" in op["hex"] or "0402e282" in op["hex"] or "8702e282" in op["hex"]):
+                    st.hit("invalid_utf8_in_filter_text")
                 if op.get("part") and op.get("ba"):
                     st.hit("shared_recv_buffer_with_residue")
                 if op["k"] == "recv" and "8a16312e332e36" in op["hex"] or (op["k"] == "recv" and "8a09312e322e33" in op["hex"]):
